@@ -23,7 +23,23 @@ impl Query {
     async fn leaves_nn(&self) -> Option<Vec<Leaf>> { Some(vec![Leaf, Leaf]) }
     async fn fatal(&self) -> Result<i32> { Err("fatal".into()) }
     async fn vec_err(&self) -> Option<Vec<Result<i32>>> { Some(vec![Ok(1), Err("item".into())]) }
+    async fn weak(&self) -> std::sync::Weak<Leaf> { std::sync::Arc::downgrade(&LIVE) }
+    async fn gone(&self) -> std::sync::Weak<Leaf> { std::sync::Weak::new() }
+    async fn arc(&self) -> Option<std::sync::Arc<Leaf>> { Some(LIVE.clone()) }
+    async fn boxed(&self) -> Option<Box<Leaf>> { Some(Box::new(Leaf)) }
 }
+static LIVE: std::sync::LazyLock<std::sync::Arc<Leaf>> = std::sync::LazyLock::new(|| std::sync::Arc::new(Leaf));
+struct Ev { n: i32 }
+#[Object]
+impl Ev {
+    async fn n(&self) -> i32 { self.n }
+    async fn soft(&self) -> Option<Leaf> { if self.n == 1 { Some(Leaf) } else { None } }
+    async fn hard(&self) -> Result<i32> { if self.n == 1 { Err("hard".into()) } else { Ok(self.n) } }
+    async fn opt(&self) -> Option<Result<i32>> { if self.n == 2 { Some(Err("opt".into())) } else { Some(Ok(self.n)) } }
+}
+struct Sub;
+#[Subscription]
+impl Sub { async fn events(&self) -> impl futures_util::Stream<Item = Ev> { futures_util::stream::iter(vec![Ev { n: 1 }, Ev { n: 2 }, Ev { n: 3 }]) } }
 struct NoopExt;
 #[async_graphql::async_trait::async_trait]
 impl async_graphql::extensions::Extension for NoopExt {}
@@ -46,6 +62,17 @@ fn dyn_schema() -> dynamic::Schema {
 /// args {"schema": "static"|"dynamic", "query": "...", "data": <expected data json>, "errors": [[path...], ...]}
 pub fn errors(args: &Value) -> Outcome {
     let q = args["query"].as_str().unwrap();
+    if args["schema"] == "subscription" {
+        // each event's response carries exactly its own data and errors
+        use futures_util::StreamExt;
+        let schema = Schema::new(Query, EmptyMutation, Sub);
+        let evs: Vec<Response> = schema.execute_stream(q).collect::<Vec<_>>().now_or_never().unwrap();
+        let got: Vec<Value> = evs.iter().map(|r| { let mut p: Vec<Value> = r.errors.iter().map(|e| serde_json::to_value(&e.path).unwrap()).collect(); p.sort_by_key(|x| x.to_string());
+            json!({"data": r.data.clone().into_json().unwrap(), "errors": p}) }).collect();
+        let mut exp = args["events"].as_array().unwrap().clone();
+        for e in exp.iter_mut() { let mut p = e["errors"].as_array().unwrap().clone(); p.sort_by_key(|x| x.to_string()); e["errors"] = Value::Array(p); }
+        return Outcome { holds: got == exp, observed: format!("{}", Value::Array(got)), expected: format!("{}", Value::Array(exp)) };
+    }
     let resp = if args["schema"] == "dynamic" { dyn_schema().execute(q).now_or_never().unwrap() }
                else if args["schema"] == "static_ext" { Schema::build(Query, EmptyMutation, EmptySubscription).extension(NoopExt).finish().execute(q).now_or_never().unwrap() }
                else { Schema::new(Query, EmptyMutation, EmptySubscription).execute(q).now_or_never().unwrap() };
@@ -73,6 +100,15 @@ pub fn inputs(_seed: u64, open: &[String]) -> impl Iterator<Item = Value> {
         json!({"schema": "static_ext", "query": "{ ok vecErr }", "data": {"ok": 1, "vecErr": null}, "errors": [["vecErr", 1]]}),
         json!({"schema": "static_ext", "query": "{ ok bad }", "data": {"ok": 1, "bad": null}, "errors": [["bad"]]}),
         json!({"schema": "static_ext", "query": "{ ok leaves { fine failNn } }", "data": {"ok": 1, "leaves": [null, null]}, "errors": [["leaves", 0, "failNn"], ["leaves", 1, "failNn"]]}),
+        // every nullable wrapper is a capturing position: Weak / Option<Arc> / Option<Box>
+        json!({"schema": "static", "query": "{ ok weak { fine failNn } gone { fine } }", "data": {"ok": 1, "weak": null, "gone": null}, "errors": [["weak", "failNn"]]}),
+        json!({"schema": "static", "query": "{ ok weak { fine failOpt } }", "data": {"ok": 1, "weak": {"fine": 1, "failOpt": null}}, "errors": [["weak", "failOpt"]]}),
+        json!({"schema": "static", "query": "{ ok arc { failNn } boxed { failNn fine } }", "data": {"ok": 1, "arc": null, "boxed": null}, "errors": [["arc", "failNn"], ["boxed", "failNn"]]}),
+        // subscription events: each response holds its own errors, whether or not the event failed as a whole
+        json!({"schema": "subscription", "query": "subscription { events { n opt } }", "events": [
+            {"data": {"events": {"n": 1, "opt": 1}}, "errors": []}, {"data": {"events": {"n": 2, "opt": null}}, "errors": [["events", "opt"]]}, {"data": {"events": {"n": 3, "opt": 3}}, "errors": []}]}),
+        json!({"schema": "subscription", "query": "subscription { events { n soft { failNn } hard } }", "events": [
+            {"data": null, "errors": [["events", "hard"], ["events", "soft", "failNn"]]}, {"data": {"events": {"n": 2, "soft": null, "hard": 2}}, "errors": []}, {"data": {"events": {"n": 3, "soft": null, "hard": 3}}, "errors": []}]}),
         json!({"schema": "dynamic", "query": "{ ok }", "data": {"ok": 1}, "errors": []}),
         json!({"schema": "dynamic", "query": "{ ok leaf { fine } }", "data": {"ok": 1, "leaf": {"fine": 1}}, "errors": []}),
     ];
